@@ -13,6 +13,7 @@ var c15Programs = []string{
 	// strings and comments that start a statement, directly or after another statement
 	`"a string statement"`, "`a raw one`", `a = 1; "second statement"`, `a = 1 "glued string"`, "println(1)\n`raw after a line`", `/*/ tricky */ a`, `a = 1 /*/ c */`, `/* only */`,
 	"s = `Hello, world`", "println(`it's (a) b`)", "f(`a) b`, 1)", "x = [`]`, `}`]", "{`k)`: `v(`}", `t = "it's (a) b" + "c]"`,
+	`m[b = 1 : 3]`, `x[a || 1 : 2] + y[c := 0 : 1]`, `z[1 : ]`,
 	`if a {"in a block"}`, `f = () => "lambda value"`, `["in", "a list"]`, `{"k": "v"}`, `return "s"`,
 }
 
